@@ -1412,7 +1412,7 @@ def run(ctx):
             c = json.load(open(f))
             c['_corpus'] = os.path.basename(f)
             cases.append(c)
-        na, nl, nbig = ctx.scale(340, 5000), ctx.scale(280, 4000), ctx.scale(4, 60)
+        na, nl, nbig = ctx.scale(300, 5000), ctx.scale(240, 4000), ctx.scale(4, 60)
         cases += [gen_case_A(rng) for _ in range(na)] + [gen_case_L(rng) for _ in range(nl)]
         cases += [gen_case_A(rng, big=True) for _ in range(nbig)] + [gen_case_L(rng, big=True) for _ in range(nbig)]
         cases += [gen_case_R(rng) for _ in range(ctx.scale(20, 300))]
@@ -1518,7 +1518,7 @@ def run(ctx):
                     ctx.count('crossings_judged_by_oracle' if judged else 'crossings_config_broken_not_judged')
                     for key, desc in fails:
                         ctx.violation(key, desc, pub)
-                pick = ctx.rng.sample(range(len(pr['xs'])), min(2, len(pr['xs'])))
+                pick = ctx.rng.sample(range(len(pr['xs'])), min(1, len(pr['xs'])))
                 v1 = dict(v0, crossings=[pr['xs'][i] for i in pick])
                 o1 = {'stage': None, 'crossings': [pr['crossings'][i] for i in pick]}
                 t1, ids1 = term_A(v1, o1)
